@@ -82,6 +82,8 @@ def universe():
     out = []
     combos = [t for n in (1, 2, 3) for t in itertools.product("ABCD", repeat=n)]
     combos += [tuple(x) for x in ("E", "F", "EF", "FE", "EE", "FF", "EFA", "AEF", "EFC", "FBE")]
+    # four members: every member type at once, in two orders, and with the shared-root types
+    combos += [tuple(x) for x in ("ABCD", "DCBA", "AEFB", "CCDD", "BADC")]
     for types in combos:
         for _once in (0,):
             for virtual in (True, False):
@@ -297,7 +299,7 @@ def run(tier, seed, replay=None):
     cov = {"states": states, "transitions": states,
            "traces_validated_against_impl": sum(1 for _, f in res if "AsModel" not in f["fails"]),
            "evaluations": len(sel), "distinct_nontrivial": len({key_of(s) for s in sel}),
-           "rule": "fixed universe: 1..3 members drawn from 4 member types (editions 2015/2018/2021, "
+           "rule": "fixed universe: 1..3 members (and five 4-member workspaces) drawn from 6 member types (editions 2015/2018/2021, "
                    "lib/bin/example/test/bench/build-script targets, dependency on the next member "
                    "or on an out-of-workspace path dependency that may depend (cyclically) on a "
                    "second one) x virtual/rooted x {root, --all, -p m1, -p m1 -p m2, -p nosuch} x "
